@@ -59,6 +59,8 @@ EXEMPT_LOCALS = {
         "the pieces after the first ';' are topic names; the address (with any credential) is the first piece, text2",
     ('openfilter/filter_runtime/filter.py::Filter.parse_options', 'opts'):
         "the pieces after the address are option assignments; a '!' inside a password is re-joined into text by the loop above",
+    ('openfilter/filter_runtime/zeromq.py::ZMQReceiver.__init__', 'topics'):
+        "second element of the (address, topic map) pairs Filter.parse_topics builds: topic names; the address is `addr`",
     ('openfilter/filter_runtime/filters/rest.py::REST.normalize_config', 'mappings'):
         "the pieces after the first ';' are endpoint mappings (method/path>topic); the address is the first piece",
 }
@@ -197,6 +199,9 @@ class TaintEngine:
                 m = self._method(f'{fi.mod.relpath}::{qualname(owner)}', f.attr)
                 if m is not None:
                     return ('fn', m, None)
+                nested = f'{fi.mod.relpath}::{qualname(owner)}.{f.attr}'      # self.Sender(...): a class nested in the owner
+                if nested in repo.classes():
+                    return ('class', nested)
                 return None
             if isinstance(base, ast.Call) and isinstance(base.func, ast.Name) and base.func.id == 'super' and fi.cls is not None:
                 key = f'{fi.mod.relpath}::{qualname(fi.cls)}'
